@@ -340,7 +340,7 @@ def gen_world(rng, *, convs=CONVS, max_n=5, max_faces=10, max_vars=5, allow_hole
             'transposed': sorted(t for t in ['face_node'] + tables if rng.random() < 0.25),
             'tables': tables, 'edge_dim_attr': has_edges and rng.random() < 0.6,
             'face_dim_attr': rng.random() < 0.6 or 'face_node' in [],
-            'conn_dtype': rng.choice(['i4', 'i4', 'i2', 'i8']),
+            'conn_dtype': rng.choice(['i4', 'i4', 'i2', 'i8', 'i1']),      # i1: the traditional all-nines fill of a table may not fit its type
             # the size-2 dimension of the edge tables: the conventional name or any other
             'two_dim': rng.choice(['Two', 'Two', 'nv2', 'pair']),
             'face_coords': rng.random() < 0.3,
@@ -363,7 +363,7 @@ DEPTH_NAMES = {
 }
 
 
-def add_depths(rng, spec, *, max_layers=4, n_depths=None):
+def add_depths(rng, spec, *, max_layers=4, n_depths=None, boundary_layers=0.0):
     """Give a world 1-3 depth coordinates on distinct dimensions and put float variables on them."""
     pool = list(DEPTH_NAMES.get(spec['conv'], DEPTH_NAMES[None]))
     n = n_depths or rng.choice([1, 2, 2, 3])
@@ -372,6 +372,9 @@ def add_depths(rng, spec, *, max_layers=4, n_depths=None):
     depths = []
     for name, dim in chosen:
         nk = rng.randint(2, max_layers)
+        if boundary_layers and rng.random() < boundary_layers:
+            # layer counts around the limits of the narrow integer types (a count of 256 wet layers does not fit 8 bits)
+            nk = rng.choice([127, 128, 129, 255, 256, 257])
         steps = [round(rng.uniform(0.5, 3.0), 3) for _ in range(nk)]
         phys = [round(0.25 + sum(steps[:k]), 3) for k in range(nk)]       # increasing = deeper
         positive = rng.choice(['up', 'down'])
@@ -437,7 +440,7 @@ LON_ATTRS = {
 
 
 def _np_dtype(code):
-    return numpy.dtype({'f8': 'float64', 'f4': 'float32', 'i4': 'int32', 'i2': 'int16', 'i8': 'int64',
+    return numpy.dtype({'f8': 'float64', 'f4': 'float32', 'i4': 'int32', 'i2': 'int16', 'i8': 'int64', 'i1': 'int8',
                         'dt': 'datetime64[ns]', 'td': 'timedelta64[ns]', 'b1': 'bool'}[code])
 
 
@@ -592,6 +595,8 @@ class World:
                     w = nk
                 elif style == 'staircase':
                     w = i % (nk + 1)
+                elif nk > 16:
+                    w = r.choice([0, nk, nk, nk - 1, r.randint(0, nk)])     # long columns: mostly dry, full or one short of full
                 else:
                     w = r.randint(0, nk)
                 col = [p < w for p in range(nk)]
@@ -920,7 +925,7 @@ class World:
         return (self.spec.get('start_index_of') or {}).get(table, self.spec['start_index'])
 
     def conn_fill(self):
-        return {'i2': 9999, 'i4': 999999, 'i8': 999999}[self.spec['conn_dtype']]
+        return {'i1': 99, 'i2': 9999, 'i4': 999999, 'i8': 999999}[self.spec['conn_dtype']]
 
     def _conn_array(self, table, rows):
         s = self.spec
